@@ -12,6 +12,9 @@ def make_registry(fortran=False):
                              result_kinds=(Scalar(is_real_valued=True),))
     freg = register_function(freg, "<func>two", ("x",), result_names=("r1", "r2"),
                              result_kinds=(Scalar(is_real_valued=True), Scalar(is_real_valued=True)))
+    from dagrt.data import UserType
+    freg = register_function(freg, "<func>split", ("y",), result_names=("lo", "hi"),
+                             result_kinds=(UserType("y"), UserType("y")))
     freg = register_function(freg, "<func>note", ("x",), result_names=(), result_kinds=())
     freg = register_function(freg, "<func>zero", (), result_names=("result",),
                              result_kinds=(Scalar(is_real_valued=True),))
@@ -26,6 +29,10 @@ def make_registry(fortran=False):
         freg = freg.register_codegen("<func>two", "fortran", f.CallCode("""
             ${r1} = ${x} + 1d0
             ${r2} = ${x}*2d0
+            """))
+        freg = freg.register_codegen("<func>split", "fortran", f.CallCode("""
+            ${lo} = 2d0*${y}
+            ${hi} = -${y}
             """))
         freg = freg.register_codegen("<func>note", "fortran", f.CallCode("""
             continue
